@@ -267,6 +267,15 @@ def explore_config(res, c, scratch, tier, fault=None, judge_fn=None, tag="C11", 
     e1 = vmp.Explorer(cfg, fault=fault, bound=b, on_exec=on_exec, max_execs=max(1, min(cap_unpruned or CAP_UNPRUNED[tier], budget[0] // 2)), max_ops=OPS_PER_EXEC * max(1, min(cap_unpruned or CAP_UNPRUNED[tier], budget[0] // 2)), should_stop=enough).explore()
     budget[0] -= max(e1.execs, e1.ops // OPS_PER_EXEC)
     if fault is None:
+        # threads started by the parent (if the code has any), in their laziest legal schedule: see vmp.VThreads
+        x = vmp.Exec(cfg, [], None, lazy_threads=True).run()
+        if x.vthreads is not None and x.vthreads.used:
+            res.count("executions_with_lazily_scheduled_parent_threads")
+            v = jf(x)
+            if v is not None:
+                res.fail(v[0] + ":parent-threads", f"[{rc.cfg_key(c)}] with the parent's own threads run late, most recently started first (nothing but join orders them): {v[1]}",
+                         {"config": c, "schedule": x.choices, "fault": None, "lazy_threads": True})
+    if fault is None:
         # a worker that is slow for a long time: the parent times out STARVE_K times in a row at each of the first points
         for i in range(4):
             x = vmp.Exec(cfg, [], None, starve=(i, STARVE_K)).run()
@@ -382,11 +391,15 @@ def replay(case, scratch):
         res.fail("C11/reference-run", f"single-core run broken: {ref.outcome}", case)
         return res.failures
     starve = tuple(case["starve"]) if case.get("starve") else None
-    x1 = vmp.Exec(cfg, case["schedule"], case.get("fault"), starve=starve).run()
-    x2 = vmp.Exec(cfg, case["schedule"], case.get("fault"), starve=starve).run()
+    lazy = bool(case.get("lazy_threads"))
+    x1 = vmp.Exec(cfg, case["schedule"], case.get("fault"), starve=starve, lazy_threads=lazy).run()
+    x2 = vmp.Exec(cfg, case["schedule"], case.get("fault"), starve=starve, lazy_threads=lazy).run()
     if (x1.trace, x1.outcome, x1.output) != (x2.trace, x2.outcome, x2.output):
         raise fw.HarnessError("the same schedule gave two different executions")
     v = judge(x1, expected)
+    if v is not None and lazy:
+        res.fail(v[0] + ":parent-threads", v[1] + " [model only: the parent's threads run late, most recently started first]", case)
+        return res.failures
     if v is not None and starve:
         res.fail(v[0] + ":after-many-timeouts", v[1] + f" [after {x1.timeouts} timed-out reads; model only: that many half-second timeouts are not replayed in real time]", case)
         return res.failures
